@@ -177,6 +177,10 @@ func compareModel(rep *Report, pool *DriverPool, c interface{}, s Setting, datas
 		}
 	}
 	modelSeq := uint64(total)*1315423911 + uint64(len(ops))*2654435761 + uint64(failAt)*97
+	if modelTier != "thorough" && (rep.Prop == "C16" || rep.Prop == "C14") && total > 40000 {
+		rep.Count("model:skipped-too-large")
+		return
+	}
 	if modelTier != "thorough" && rep.Prop == "C16" && total <= 3000 && modelSeq%3 != 0 {
 		rep.Count("model:skipped-sampled-out")
 		return
@@ -288,6 +292,10 @@ func compareOracle(rep *Report, pool *DriverPool, c interface{}, s Setting, data
 		budget = 300000
 	}
 	if !modelAffordable(datas, ops, budget) {
+		rep.Count("oracle:skipped-too-large")
+		return
+	}
+	if modelTier != "thorough" && (rep.Prop == "C16" || rep.Prop == "C14") && total > 40000 {
 		rep.Count("oracle:skipped-too-large")
 		return
 	}
